@@ -59,9 +59,19 @@ Definition members_ok (s : st) (l : list N) : bool :=
 
 Definition live_dests (s : st) : list N := map (fun e => rdest (crule (snd e))) (clients s).
 
+(* a as a multiset is contained in b *)
+Fixpoint sub_multiset (a b : list N) : bool :=
+  match a with
+  | [] => true
+  | x :: r => match remove1 x b with Some b' => sub_multiset r b' | None => false end
+  end.
+
+(* one entry per open connection: never more connections to a destination than live clients that
+   name it (two rule ids may name the same one), and one for each live client of a destination that
+   is up *)
 Definition open_ok (s : st) (reliable : list N) (l : list N) : bool :=
-  nodupb l && subsetN l (live_dests s) &&
-  subsetN (filter (fun d => memN d reliable) (live_dests s)) l.
+  sub_multiset l (live_dests s) &&
+  sub_multiset (filter (fun d => memN d reliable) (live_dests s)) l.
 
 Definition recv_ok (out reliable recv : list N) : bool :=
   subsetN recv out && subsetN (filter (fun d => memN d reliable) out) recv.
